@@ -1413,7 +1413,14 @@ fn generate(rng: &mut Rng, hist: &mut Hist) -> Vec<Program> {
     let mut macros = Vec::new();
     for i in 0..nmac {
         let params = if rng.chance(2, 5) { None } else { Some(rng.below(4) as usize) };
-        macros.push(GenMacro { name: MACRO_NAMES[i].to_string(), params });
+        // now and then a macro whose name can be made by `##` (`A ## B`, `P ## 1`): the merged token is read again
+        let name = if i + 1 == nmac && rng.chance(1, 4) {
+            hist.add("macro:name-that-a-paste-can-make");
+            rng.pick(&["AB", "P1"]).to_string()
+        } else {
+            MACRO_NAMES[i].to_string()
+        };
+        macros.push(GenMacro { name, params });
     }
     hist.add(&format!("macros:{}", nmac));
     let mut g = Gen { rng, macros, hist };
